@@ -164,7 +164,7 @@ func (s *Session) Project(names []string) (snap Snapshot) {
 		return strings.Join(snap.Post[a].P, "/") < strings.Join(snap.Post[b].P, "/")
 	})
 
-	if wd, err := s.FS.Getwd(); err == nil {
+	if wd, err := s.base().Getwd(); err == nil {
 		snap.Cwd = s.abstractPath(wd)
 	} else {
 		snap.Cwd = Path{Parts: []string{"GETWD-" + ErrName(err)}}
